@@ -66,8 +66,14 @@ def build_one(pd, **kw):
             p.add_argument("--" + name, type=ty, required=True)
         else:
             p.add_argument("--" + name, type=ty, default=INT_DEFAULT if kind == "int" else STR_DEFAULT)
-    for name, is_callable in pd["cls"]:
-        p.add_argument("--" + name, type=(Callable[[int], Base] if is_callable else Base), default=None)
+    if pd.get("sig"):
+        # class / Callable / dataclass options come from a signature: non-empty action.sub_add_kwargs
+        names = [n for n, _ in pd["cls"]]
+        tag = ("m" if "model" in names else "") + ("c" if "cb" in names else "") + ("d" if pd.get("dc") else "")
+        p.add_class_arguments(c09_classes.HOLDERS[tag])
+    else:
+        for name, is_callable in pd["cls"]:
+            p.add_argument("--" + name, type=(Callable[[int], Base] if is_callable else Base), default=None)
     for src, tgt in pd.get("links", []):
         p.link_arguments(src, tgt)
     return p
@@ -101,6 +107,10 @@ def nested(items, decl):
     cls_names = {n for n, _ in decl["root"]["cls"]}
     d = {}
     for k, v in items:
+        if k == "d" and decl["root"].get("dc"):
+            a, b = v.split(",")   # "A,B": a mapping with the non-empty fields
+            d["d"] = {f: lit(x) for f, x in (("a", a), ("b", b)) if x != ""}
+            continue
         parts = k.split(".")
         if parts[0] in cls_names:
             if len(parts) == 1:
@@ -374,13 +384,29 @@ class Tracker:
     def state(self):
         unexplained = []
         now = self.deep()
+        # the action of the dataclass option d: its sub_add_kwargs["default"] is abstracted below (ddef)
+        dpref = [k[: -len(".dest")] for k, v in now.items() if k.endswith(".dest") and v == '"d"']
         for k in sorted(set(now) | set(self.base)):
             if now.get(k) != self.base.get(k):
+                if any(k.startswith(p + ".sub_add_kwargs[default]") for p in dpref):
+                    continue
+                if any(k == p + ".sub_add_kwargs#keys" for p in dpref) and \
+                        [x for x in json.loads(now.get(k, "[]")) if x != "default"] == json.loads(self.base.get(k, "[]")):
+                    continue
                 if k.endswith("_ActionHelpClassPath::sub_add_kwargs[skip]") or k.endswith("_ActionHelpClassPath::sub_add_kwargs#keys"):
                     continue
                 unexplained.append("%s: %s -> %s" % (k, str(self.base.get(k))[:60], str(now.get(k))[:60]))
-        pending, args, shtab = [], [], []
+        pending, args, shtab, ddef = [], [], [], []
         for root, parsers, labels in self.built:
+            dact = [a for a in root._actions if a.dest == "d" and hasattr(a, "sub_add_kwargs")]
+            dd = dact[0].sub_add_kwargs.get("default") if dact else None
+            if dd is None:
+                ddef.append(None)
+            elif isinstance(dd, Namespace) and sorted(vars(dd)) == ["a", "b"] and all(type(x) is int for x in vars(dd).values()):
+                ddef.append([str(dd.a), str(dd.b)])
+            else:
+                ddef.append(None)
+                unexplained.append("sub_add_kwargs['default'] of d is %r" % (dd,))
             shtab.append(bool(ShtabAction) and any(isinstance(a, ShtabAction) for a in root._actions))
             pa = []
             for name, p in parsers.items():
@@ -424,7 +450,7 @@ class Tracker:
             else:
                 unexplained.append("ContextVar %s left set to %s" % (name, repr(val)[:60]))
         hs = _ActionHelpClassPath.__dict__.get("sub_add_kwargs", {})
-        return {"pending": pending, "args": args, "shtab": shtab, "ctx": ctx, "help_skip": "skip" in hs,
+        return {"pending": pending, "args": args, "shtab": shtab, "ddef": ddef, "ctx": ctx, "help_skip": "skip" in hs,
                 "unexplained": unexplained[:6]}
 
 
